@@ -45,7 +45,7 @@ type KnownFinding struct {
 }
 
 type Report struct {
-	Undecided []string `json:"-"`
+	Undecided   []string `json:"-"`
 	Prop        string
 	Tier        string
 	Seed        int64
